@@ -293,13 +293,33 @@ def walk_fails_late(ctx, base):
             return
 
 
+def finalise_failure_agreement(ctx, base):
+    """a file whose data can be written but whose metadata cannot be applied (fchmod / utimensat refused: a foreign-owned file in a
+    shared directory): whatever xcp makes of that (recorded finding F11: exit 0), both drivers and every worker count make the SAME of it"""
+    outs = {}
+    for driver, workers in (('parfile', 1), ('parfile', 4), ('parblock', 1), ('parblock', 4)):
+        for sysn in ('fchmod', 'utimensat'):
+            sc = treerun.Scn(); sc.driver = driver; sc.workers = workers
+            sc.d(b'/W').d(b'/W/S').f(b'/W/S/a').f(b'/W/S/b', text=b'B' * 9000).f(b'/W/S/c').d(b'/W/S/sub').f(b'/W/S/sub/d')
+            sc.opts = ['r']; sc.paths = [b'S', b'DEST']; sc.extra = ['--block-size', '4096']
+            o = treerun.run(base, sc, plan=[f'fail {sysn} b 1 {scen.ERRNO["EPERM"]}'], trace=True)
+            fired = any(e.get('inj') for e in o.res.trace)
+            outs.setdefault(sysn, []).append((driver, workers, o.res.cls, fired))
+            ctx.count(f'finalise_failure.{sysn}.{driver}.{o.res.cls}'); ctx.case(('finalise-failure', sysn, driver, workers), fired)
+    for sysn, rows in outs.items():
+        classes = {r[2] for r in rows if r[3]}
+        if len(classes) > 1:
+            ctx.violation(f'finalise-failure-{sysn}.json', dict(call=sysn, outcomes=[list(r) for r in rows]),
+                          f'C06: with the {sysn} of one file refused (EPERM) the exit status depends on the driver / worker count: {[(r[0], r[1], r[2]) for r in rows]}')
+
+
 def linked_and_readonly_sources(ctx, base):
     """two source shapes whose copies must not depend on who comes first: (1) files with SEVERAL NAMES (hard links) — each name is
     copied, whichever worker gets there first; (2) as an unprivileged user, a source directory without write permission —
     the destination directory must stay writable for as long as workers still create files in it.  Runs with one worker, with
     several workers and stalled opens, with both drivers: all exit 0 with one and the same destination."""
     import subprocess
-    for shape in ('hard-links', 'read-only-directory'):
+    for shape in ('hard-links', 'read-only-directory', 'same-stem'):
         ref = None
         for j, (driver, workers, plan) in enumerate((('parfile', 1, None), ('parfile', 4, ['stallp openat =S/a 80000', 'stallp openat =S/b 80000', 'stallp openat =S/ro/f1 80000']),
                                                      ('parfile', 4, ['stall openat 20000']), ('parblock', 2, ['stall copy_file_range 30000']), ('parfile', 8, None))):
@@ -310,6 +330,9 @@ def linked_and_readonly_sources(ctx, base):
             for k in range(6):
                 open(f'{u}/S/ro/f{k}', 'wb').write(b'%d' % k * 500)
             ids = None
+            if shape == 'same-stem':        # pairs of files that differ only in their extension (mod7.c / mod7.h), copied at the same time
+                for k in range(20):
+                    open(f'{u}/S/sub/mod{k}.c', 'wb').write(b'C%d ' % k * 900); open(f'{u}/S/sub/mod{k}.h', 'wb').write(b'H%d ' % k * 300); open(f'{u}/S/sub/mod{k}', 'wb').write(b'bare%d' % k)
             if shape == 'hard-links':
                 os.link(u + '/S/a', u + '/S/b'); os.link(u + '/S/sub/c', u + '/S/sub/d'); os.link(u + '/S/a', u + '/S/sub/a2')
             else:
@@ -351,6 +374,7 @@ def run(ctx):
         block_order_corpus(ctx, base)
         driver_and_pace_agreement(ctx, base)
         linked_and_readonly_sources(ctx, base)
+        finalise_failure_agreement(ctx, base)
         for i in range(n):
             sc = gen(rng)
             configs = [(d, w) for d in ('parfile', 'parblock') for w in (1, 2, 3, 8, 64)]
